@@ -100,10 +100,15 @@ def run_opt(case):
         return Result([], ["no-default"], False)
     cn = CNSolution(gene, 0, struct)
     sel = []
+    first = {}
     for c in struct:
         a = by[c][rng.randrange(len(by[c]))]
         mi = natsorted(gene.alleles[a].minors)
-        sel.append((a, mi[rng.randrange(len(mi))]))
+        pick = (a, mi[rng.randrange(len(mi))])
+        if case.get("homo"):
+            # every copy of a configuration is the same database allele (the major call holds an allele two or three times)
+            pick = first.setdefault(c, pick)
+        sel.append(pick)
     major_counts = collections.Counter(a for a, _ in sel)
     copies = [(a, {tuple(m) for m in gen_evid.carried(gene, a, mn)}) for a, mn in sel]
     sites = sorted(gene.mutations)
@@ -119,7 +124,12 @@ def run_opt(case):
             if m[0] in carried_pos and not any(m in ms for _, ms in copies) and cn.position_cn(m[0]) > 0:
                 extra[m] = 1
     noise = (0.7, 1.3) if case["noisy"] else (1.0, 1.0)
-    raw = gen_evid.planted_table(gene, copies, case["depth"], sites, rng, noise, extra, drop=case["drop"] / 100.0)
+    ev_copies = copies
+    if case.get("short") and len(copies) > 1:
+        # the reads under-represent the last copy's core variants by one copy (they show the reference there instead)
+        a_last, ms_last = copies[-1]
+        ev_copies = copies[:-1] + [(a_last, ms_last - {tuple(m) for m in gene.alleles[a_last].func_muts})]
+    raw = gen_evid.planted_table(gene, ev_copies, case["depth"], sites, rng, noise, extra, drop=case["drop"] / 100.0)
     # phases: fragments consistent with one planted copy over 2-3 catalogue positions (+ chimeric ones)
     phases = None
     if case["phases"]:
@@ -138,44 +148,91 @@ def run_opt(case):
                 rec[p] = here[0] if here else "_"
             phases[f"f{f}"] = rec
     cov = gen_evid.coverage_of(gene, prof, raw, sam=FakeSam(phases) if phases else None)
-    major = MajorSolution(0, collections.Counter({SolvedAllele(gene, A): c for A, c in major_counts.items()}), cn, [])
-    sols = estimate_minor(gene, cov, [major], "cbc", max_solutions=case["mms"])
+    # novel core variant of the major call: a catalogued functional variant that none of the called alleles defines
+    novel = []
+    if case.get("novel") is not None:
+        own = {tuple(m) for a, _ in sel for m in gene.alleles[a].func_muts}
+        cand = [m for m in sites if gene.is_functional(m) and m not in own and cn.position_cn(m[0]) > 0]
+        if cand:
+            novel = [Mutation(*cand[case["novel"] % len(cand)])]
+            if not raw.get(novel[0].pos, {}).get(novel[0].op):
+                raw.setdefault(novel[0].pos, {})[novel[0].op] = [(60, 60)] * case["depth"]
+                cov = gen_evid.coverage_of(gene, prof, raw, sam=FakeSam(phases) if phases else None)
+    majors = [(MajorSolution(0, collections.Counter({SolvedAllele(gene, A): c for A, c in major_counts.items()}), cn, novel), major_counts)]
+    if case.get("multi"):
+        # a second, different major call of the same structure (worse by 0.5): variants are pooled over both
+        r2 = random.Random(case["seed"] + 1)
+        mc2 = collections.Counter(by[c][r2.randrange(len(by[c]))] for c in struct)
+        if mc2 != major_counts:
+            majors.append((MajorSolution(0.5, collections.Counter({SolvedAllele(gene, A): c for A, c in mc2.items()}), cn, []), mc2))
+            if not case.get("novel_last"):
+                majors.reverse()
+    sols_all = estimate_minor(gene, cov, [m for m, _ in majors], "cbc", max_solutions=case["mms"])
     labels = [f"gene:{case['gene']}", f"copies:{len(struct)}", "phases" if phases else "no-phases", "noisy" if case["noisy"] else "exact",
               "fused" if any(c != "1" for c in struct) else "default-only"]
+    if novel:
+        labels.append("major-call-has-novel-variant")
+    if len(majors) > 1:
+        labels.append("two-major-calls")
+        if novel and majors[-1][0].added == []:
+            labels.append("two-major-calls+novel-not-last")
+    if max(collections.Counter(sel).values()) > 1:
+        labels.append("same-allele-twice")
+        if ev_copies is not copies and gene.alleles[copies[-1][0]].func_muts:
+            labels.append("same-allele-twice+core-under-represented")
     if any(m[0] in {p for _, ms in copies for p, _ in ms} for m in extra):
         labels.append("multi-allelic-evidence")
+    pooled = {m for mj, mc in majors for m in _considered(gene, mc)} | {m for mj, _ in majors for m in mj.added}
     viol = []
-    try:
-        best, nfeas, t2 = refmodels.rmin(gene, prof, raw, major_counts, cn, phases=phases)
-    except OverflowError:
-        labels.append("enumeration-capped")
-        _, _ = None, None
-        t2, _pcn = refmodels.filtered_table(gene, prof, raw, cn, keep=refmodels.minor_keep_rule(gene, _considered(gene, major_counts)))
-        invariants(gene, prof, raw, cn, major_counts, sols, t2, viol)
-        return Result(_uniq(viol), labels, False)
-    invariants(gene, prof, raw, cn, major_counts, sols, t2, viol)
-    if best is None:
-        if sols:
-            viol.append(V("solutions-but-no-admissible-assignment", n=len(sols)))
-        return Result(_uniq(viol), labels + ["infeasible"], False)
-    if not sols:
-        viol.append(V("no-solution-but-admissible-assignment-exists", reference=best[0], feasible=nfeas))
-        return Result(_uniq(viol), labels, True)
-    s0 = min(s.score for s in sols)
-    tb = 1e-3 * max(1, best[2] + 2)
-    if s0 < best[0] - 1e-4:
-        viol.append(V("score-below-exhaustive-optimum", reported=s0, reference=best[0], phases=bool(phases)))
-    elif s0 > best[0] + tb + 1e-4:
-        viol.append(V("score-above-exhaustive-optimum", reported=s0, reference=best[0], phases=bool(phases),
-                      reported_alleles=[(a.minor, [str(m) for m in a.added], [str(m) for m in a.missing]) for a in sols[0].solution],
-                      reference_assignment=[(mi, sorted(map(str, add)), sorted(map(str, set(D) - set(kept)))) for (A, mi, D, kept, add) in best[1]]))
-    default_opt = all(len(add) == 0 and kept == D for (A, mi, D, kept, add) in best[1])
-    if any(a.added for s in sols for a in s.solution):
-        labels.append("added")
-    if any(a.missing for s in sols for a in s.solution):
-        labels.append("missing")
-    labels.append(f"feasible:{'8+' if nfeas >= 8 else nfeas}")
-    return Result(_uniq(viol), labels, (nfeas >= 8 and not default_opt) or bool(phases))
+    nontrivial = False
+    for mj, mc in majors:
+        sols = [s for s in sols_all if s.major_solution is mj]
+        if len(majors) == 1 and len(sols) != len(sols_all):
+            viol.append(V("solution-of-another-major-call"))
+        off = mj.score - min(m.score for m, _ in majors)
+        try:
+            best, nfeas, t2 = refmodels.rmin(gene, prof, raw, mc, cn, extra_mutations=[tuple(m) for m in pooled], phases=phases)
+        except OverflowError:
+            labels.append("enumeration-capped")
+            t2, _pcn = refmodels.filtered_table(gene, prof, raw, cn, keep=refmodels.minor_keep_rule(gene, pooled))
+            invariants(gene, prof, raw, cn, mc, sols, t2, viol)
+            continue
+        invariants(gene, prof, raw, cn, mc, sols, t2, viol)
+        # every considered variant of the major call that has (filtered) support is carried by some allele
+        for s_ in sols:
+            car = set()
+            for a_ in s_.solution:
+                al = gene.alleles[a_.major]
+                if a_.minor in al.minors:
+                    car |= (set(al.func_muts) | set(al.minors[a_.minor].neutral_muts) | set(a_.added)) - set(a_.missing)
+            for m in mj.added:
+                if len(t2.get(m.pos, {}).get(m.op, [])) > 0 and m not in car:
+                    viol.append(V("novel-variant-of-major-call-lost", variant=str(m), calls=len(majors)))
+        if best is None:
+            if sols:
+                viol.append(V("solutions-but-no-admissible-assignment", n=len(sols)))
+            labels.append("infeasible")
+            continue
+        if not sols:
+            viol.append(V("no-solution-but-admissible-assignment-exists", reference=best[0], feasible=nfeas, calls=len(majors)))
+            nontrivial = True
+            continue
+        s0 = min(s.score for s in sols) - off
+        tb = 1e-3 * max(1, best[2] + 2)
+        if s0 < best[0] - 1e-4:
+            viol.append(V("score-below-exhaustive-optimum", reported=s0, reference=best[0], phases=bool(phases), calls=len(majors)))
+        elif s0 > best[0] + tb + 1e-4:
+            viol.append(V("score-above-exhaustive-optimum", reported=s0, reference=best[0], phases=bool(phases), calls=len(majors),
+                          reported_alleles=[(a.minor, [str(m) for m in a.added], [str(m) for m in a.missing]) for a in sols[0].solution],
+                          reference_assignment=[(mi, sorted(map(str, add)), sorted(map(str, set(D) - set(kept)))) for (A, mi, D, kept, add) in best[1]]))
+        default_opt = all(len(add) == 0 and kept == D for (A, mi, D, kept, add) in best[1])
+        if any(a.added for s in sols for a in s.solution):
+            labels.append("added")
+        if any(a.missing for s in sols for a in s.solution):
+            labels.append("missing")
+        labels.append(f"feasible:{'8+' if nfeas >= 8 else nfeas}")
+        nontrivial = nontrivial or (nfeas >= 8 and not default_opt) or bool(phases)
+    return Result(_uniq(viol), sorted(set(labels)), nontrivial)
 
 
 def _considered(gene, major_counts):
@@ -277,7 +334,8 @@ def strategy(tier):
              "struct": st.lists(st.integers(0, 9), min_size=1, max_size=3), "depth": st.sampled_from([10, 20]),
              "noisy": st.booleans(), "extra": st.lists(st.integers(0, 30), max_size=2), "drop": st.sampled_from([0, 0, 20]),
              "phases": st.sampled_from([0, 0, 6, 20]), "mms": st.just(1), "seed": st.integers(0, 10 ** 6),
-             "twin_extra": st.booleans()}
+             "twin_extra": st.booleans(), "homo": st.sampled_from([False, False, True]), "short": st.sampled_from([False, False, True]),
+             "novel": st.sampled_from([None, None, 0, 1, 2]), "multi": st.sampled_from([False, False, True]), "novel_last": st.booleans()}
         if g == "gen":
             d["db"] = gen_db.db_specs(gaps=False, pseudo=True, force_sv=True, small=True, max_sites=5, max_alleles=5, twins=True)
         return st.fixed_dictionaries(d)
